@@ -64,17 +64,13 @@ namespace c17
   template<typename MkC_, typename MkJ_, typename Raw_>
   void run_container_kind(REnv& e, MkC_ mkc, MkJ_ mkj, Raw_ raw)
   {
-    auto ser = mkc(); auto thr = mkc(); auto one = mkc();
+    auto ser = mkc(); auto one = mkc();
     {
       auto job = mkj(ser); DA<RTrafo> ds(e.trafo); apply_subset(ds, e.mesh, e.sub);
       for(int r = 0; r < e.reps; ++r) ds.assemble(job);
     }
-    {
-      auto job = mkj(thr);
-      for(int r = 0; r < e.reps; ++r) assemble_threaded(e, job, r);
-    }
     const std::size_t n = raw(one).second;
-    VF_CHECK(raw(ser).second == n && raw(thr).second == n, "container sizes differ");
+    VF_CHECK(raw(ser).second == n, "container sizes differ");
     std::vector<long double> ref(n, 0.0L), ab(n, 0.0L); std::vector<int> cnt(n, 0);
     {
       auto job = mkj(one);
@@ -85,15 +81,35 @@ namespace c17
         for(std::size_t k = 0; k < n; ++k) if(p[k] != 0.0) { ref[k] += (long double)p[k]; ab[k] += std::fabs((long double)p[k]); cnt[k]++; p[k] = 0.0; }
       }
     }
-    const double* ps = raw(ser).first; const double* pt = raw(thr).first;
     const long double tiny = 16.0L * std::numeric_limits<double>::min();
-    for(std::size_t k = 0; k < n; ++k)
     {
-      long double rf = ref[k] * e.reps, tol = 8.0L * (cnt[k] * e.reps + 2) * eps_u() * ab[k] * e.reps + tiny;
-      if(cnt[k] == 0) { VF_CHECK(pt[k] == 0.0 && ps[k] == 0.0, "entry " << k << " is touched by no selected cell but is " << pt[k] << " (threaded) / " << ps[k] << " (serial)"); continue; }
-      VF_CHECK(std::fabs((long double)pt[k] - rf) <= tol, "threaded entry " << k << " = " << pt[k] << " differs from the sum of its " << cnt[k] << " cell contributions " << (double)rf << " by " << (double)std::fabs((long double)pt[k] - rf) << " > tol " << (double)tol << " (serial " << ps[k] << ")");
-      VF_CHECK(std::fabs((long double)ps[k] - rf) <= tol, "serial entry " << k << " = " << ps[k] << " differs from the sum of its cell contributions " << (double)rf << " by more than tol " << (double)tol);
+      const double* ps = raw(ser).first;
+      for(std::size_t k = 0; k < n; ++k)
+      {
+        long double rf = ref[k] * e.reps, tol = 8.0L * (cnt[k] * e.reps + 2) * eps_u() * ab[k] * e.reps + tiny;
+        if(cnt[k] == 0) { VF_CHECK(ps[k] == 0.0, "serial entry " << k << " is touched by no selected cell but is " << ps[k]); continue; }
+        VF_CHECK(std::fabs((long double)ps[k] - rf) <= tol, "serial entry " << k << " = " << ps[k] << " differs from the sum of its cell contributions " << (double)rf << " by more than tol " << (double)tol);
+      }
     }
+    auto attempt = [&]() -> std::string
+    {
+      try
+      {
+        auto thr = mkc();
+        { auto job = mkj(thr); for(int r = 0; r < e.reps; ++r) assemble_threaded(e, job, r); }
+        VF_CHECK(raw(thr).second == n, "container sizes differ");
+        const double* ps = raw(ser).first; const double* pt = raw(thr).first;
+        for(std::size_t k = 0; k < n; ++k)
+        {
+          long double rf = ref[k] * e.reps, tol = 8.0L * (cnt[k] * e.reps + 2) * eps_u() * ab[k] * e.reps + tiny;
+          if(cnt[k] == 0) { VF_CHECK(pt[k] == 0.0, "entry " << k << " is touched by no selected cell but is " << pt[k] << " (threaded)"); continue; }
+          VF_CHECK(std::fabs((long double)pt[k] - rf) <= tol, "threaded entry " << k << " = " << pt[k] << " differs from the sum of its " << cnt[k] << " cell contributions " << (double)rf << " by " << (double)std::fabs((long double)pt[k] - rf) << " > tol " << (double)tol << " (serial " << ps[k] << ")");
+        }
+      }
+      catch(vf::Fail& f) { return f.sym; }
+      return "";
+    };
+    confirm_in_child(attempt);
   }
 
   struct FieldCmp
@@ -124,10 +140,15 @@ namespace c17
   /// integral kinds: mkj() makes the job; result() of both runs compared field by field
   template<typename MkJ_> void run_integral_kind(REnv& e, MkJ_ mkj, const char* who)
   {
-    auto js = mkj(); auto jt = mkj();
+    auto js = mkj();
     { DA<RTrafo> ds(e.trafo); apply_subset(ds, e.mesh, e.sub); for(int r = 0; r < e.reps; ++r) ds.assemble(js); }
-    for(int r = 0; r < e.reps; ++r) assemble_threaded(e, jt, r);
-    compare_info(e, js.result(), jt.result(), who);
+    auto attempt = [&]() -> std::string
+    {
+      try { auto jt = mkj(); for(int r = 0; r < e.reps; ++r) assemble_threaded(e, jt, r); compare_info(e, js.result(), jt.result(), who); }
+      catch(vf::Fail& f) { return f.sym; }
+      return "";
+    };
+    confirm_in_child(attempt);
   }
 
   static const char* const real_kinds[] = { "mat1-laplace-q1", "mat1-mass-q2", "mat2-q2xq1", "force-q1", "linfunc-q2", "int-analytic", "int-discrete-q1", "int-error-q2", "int-cellerror-q1" };
@@ -224,19 +245,30 @@ namespace c17
     default:
       {
         typedef Assembly::CellErrorFunctionIntegralJob<RFunc, RVec, RQ1, 1> JobT;
-        JobT js(e.func, e.v1, q1, e.cub), jt(e.func, e.v1, q1, e.cub);
+        JobT js(e.func, e.v1, q1, e.cub);
         { DA<RTrafo> ds(trafo); apply_subset(ds, *mesh, sub); for(int r = 0; r < reps; ++r) ds.assemble(js); }
-        for(int r = 0; r < reps; ++r) assemble_threaded(e, jt, r);
-        auto rs = js.result(); auto rt = jt.result();
-        compare_info(e, rs.integral_info, rt.integral_info, "cell error integral");
-        VF_CHECK(rs.vec.size() == rt.vec.size() && rs.vec.size() == ms.nc(), "cell error vector has the wrong length");
+        auto rs = js.result();
         std::vector<char> sel(ms.nc(), 0); for(Index cl : sub.cells) sel[cl] = 1;
-        for(Index i = 0; i < rs.vec.size(); ++i)
+        auto attempt = [&]() -> std::string
         {
-          auto a = rs.vec(i); auto b = rt.vec(i);
-          for(int k = 0; k < 2; ++k) VF_CHECK(a[k] == b[k], "cell error vector entry " << i << "[" << k << "] threaded " << b[k] << " vs serial " << a[k] << " (per-cell values are order independent)");
-          if(!sel[i]) VF_CHECK(b[0] == 0.0 && b[1] == 0.0, "cell error vector entry of unselected cell " << i << " was written");
-        }
+          try
+          {
+            JobT jt(e.func, e.v1, q1, e.cub);
+            for(int r = 0; r < reps; ++r) assemble_threaded(e, jt, r);
+            auto rt = jt.result();
+            compare_info(e, rs.integral_info, rt.integral_info, "cell error integral");
+            VF_CHECK(rs.vec.size() == rt.vec.size() && rs.vec.size() == ms.nc(), "cell error vector has the wrong length");
+            for(Index i = 0; i < rs.vec.size(); ++i)
+            {
+              auto a = rs.vec(i); auto b = rt.vec(i);
+              for(int k = 0; k < 2; ++k) VF_CHECK(a[k] == b[k], "cell error vector entry " << i << "[" << k << "] threaded " << b[k] << " vs serial " << a[k] << " (per-cell values are order independent)");
+              if(!sel[i]) VF_CHECK(b[0] == 0.0 && b[1] == 0.0, "cell error vector entry of unselected cell " << i << " was written");
+            }
+          }
+          catch(vf::Fail& f) { return f.sym; }
+          return "";
+        };
+        confirm_in_child(attempt);
       }
       break;
     }
@@ -244,7 +276,7 @@ namespace c17
 
   inline void add_real_targets(std::vector<vf::Target>& tg, const std::string& prefix)
   {
-    tg.push_back({ prefix + "real", [](Tape& t, Ctx& c) { RealOpts o; o.max_cells = 144; real_case(t, c, o); }, 96, 0, 60000 });
-    tg.push_back({ prefix + "real_big", [](Tape& t, Ctx& c) { RealOpts o; o.max_cells = 1024; real_case(t, c, o); }, 96, 0, 60000 });
+    tg.push_back({ prefix + "real", [](Tape& t, Ctx& c) { RealOpts o; o.max_cells = 144; real_case(t, c, o); }, 56, 0, 60000 });
+    tg.push_back({ prefix + "real_big", [](Tape& t, Ctx& c) { RealOpts o; o.max_cells = 1024; real_case(t, c, o); }, 56, 0, 60000 });
   }
 } // namespace c17
